@@ -25,7 +25,8 @@ ANCHORS = ["coxeter.shapes.convex_polygon:ConvexPolygon.distance_to_surface",
            "coxeter.shapes.circle:Circle.distance_to_surface", "coxeter.shapes.ellipse:Ellipse.distance_to_surface"]
 REQUIRED_MONITORS = ["Circle.distance_to_surface", "Ellipse.distance_to_surface", "ConvexPolygon.distance_to_surface",
                      "ConvexSpheropolygon.distance_to_surface", "argument-unchanged"]
-REQUIRED_CLASSES = ["poly:regular", "poly:irregular", "poly:axis-aligned", "sphero:r=0", "sphero:r>0", "Ellipse", "Circle"]
+REQUIRED_CLASSES = ["poly:regular", "poly:irregular", "poly:axis-aligned", "sphero:r=0", "sphero:r>0", "Ellipse", "Circle",
+                    "angles:ndarray:f", "angles:ndarray:i", "angles:list:int", "angles:list:float", "angles:tuple:float"]
 
 
 def ncases(tier):
@@ -217,9 +218,15 @@ def run_case(i, rng, rec, tier, state):
         cls = "Ellipse"
         rec.cls("Ellipse")
         info = {"class": cls, "axes": ax}
-    for arr in (th, th[(th >= 0) & (th < 2 * np.pi)], th[:1]):
+    # the same angles in the other forms an "array of angles" takes: integer arrays (whole radians), lists and tuples
+    ints = rng.integers(-12, 13, size=12)
+    forms = [th, th[(th >= 0) & (th < 2 * np.pi)], th[:1], ints.astype(np.int64), ints.astype(np.int32),
+             [int(v) for v in ints[:6]], th[:16].tolist(), tuple(th[16:24].tolist())]
+    for arr in forms:
+        rec.cls("angles:" + type(arr).__name__ + (":" + arr.dtype.kind if isinstance(arr, np.ndarray) else
+                                                  ":" + type(arr[0]).__name__ if len(arr) else ""))
         try:
-            s.distance_to_surface(arr.copy())
+            s.distance_to_surface(arr.copy() if isinstance(arr, np.ndarray) else arr)
         except Exception as e:
             rec.violation(cls + ".distance_to_surface", f"{cls}.distance_to_surface/raises-{type(e).__name__}", dict(info, exc=repr(e)[:300]))
             break
